@@ -35,6 +35,8 @@ PROPS["C03"] = dict(
 )
 
 PROPS["C01"] = dict(
+    snapshot_modules=["Rrtk.Thm.Lemmas.C01Snapshot"],
+    precompare=cases.precompare_conversions,
     exhaustive_parts='49x49 ordered pairs of grid units x every operator/assign/compare form on Quantity and on bare Unit; all 49 named constants; all special-value pairs of the 14 listed f32 bit patterns',
     gen=cases.gen_C01,
     # "with dimension checking enabled": every way of enabling it — debug profile, release profile + dim_check_release, no_std
@@ -120,6 +122,7 @@ PROPS["C09"] = dict(
 )
 
 PROPS["C05"] = dict(
+    project=cases.project_C05,
     exhaustive_parts='every interleaving of {present, absent, Err(1), Err(2), FromNone} up to length 4 (thorough/deep: 5) for each of the 15 stateful stream variants, each also with time standing still across gaps; freeze over all condition histories {Err,None,true,false}^n, n<=4',
     gen=cases.gen_C05,
     oracle=cases.oracle_C05,
